@@ -543,3 +543,92 @@ def no_await_between(ctx, rule, fa, def_stmt, use_stmt, what, key=None):
     ctx.ob(rule, bad is None, fa.site(bad if bad is not None else def_stmt), what, func=fa.fi.qualname, key=key or f"{rule}|{fa.fi.qualname}|fresh",
            detail="" if bad is None else f"`{unparse(bad)[:80]}` (line {bad.lineno}) runs between reading the value (line {def_stmt.lineno}) and using it (line {use_stmt.lineno})")
     return bad is None
+
+
+def _leaves(body):
+    return bool(body) and isinstance(body[-1], (ast.Return, ast.Raise, ast.Continue, ast.Break))
+
+
+def required_polarities(fn, target):
+    """[(test expression, required truth value)] for the if-tests that decide lexically whether `target` (a statement of `fn`) is reached: enclosing ifs and
+    the guard clauses (an arm that leaves) in front of it in the enclosing blocks.  Works on the tree AS WRITTEN.  None if target is not in fn."""
+    out = []
+
+    def guards(stmts):
+        for g in stmts:
+            if isinstance(g, ast.If):
+                if _leaves(g.body) and not _leaves(g.orelse):
+                    out.append((g.test, False))
+                elif _leaves(g.orelse) and not _leaves(g.body):
+                    out.append((g.test, True))
+
+    def walk(stmts):
+        for i, st in enumerate(stmts):
+            if st is target:
+                guards(stmts[:i])
+                return True
+            if isinstance(st, (ast.FunctionDef, ast.AsyncFunctionDef, ast.ClassDef)):
+                continue
+            for fld in ("body", "orelse", "finalbody", "handlers"):
+                blk = getattr(st, fld, None)
+                if not isinstance(blk, list):
+                    continue
+                for sub in ([h.body for h in blk] if fld == "handlers" else [blk]):
+                    if walk(sub):
+                        if isinstance(st, (ast.If, ast.While)) and fld in ("body", "orelse"):
+                            out.append((st.test, fld == "body"))
+                        guards(stmts[:i])
+                        return True
+        return False
+
+    return out if walk(fn.body) else None
+
+
+def compare_atoms(test, pol=True):
+    """(Compare node, polarity it must have) for the comparisons inside a test that is required to be `pol`; under `or` required true / `and` required false
+    the individual polarity is not determined — those atoms are reported with polarity None"""
+    if isinstance(test, ast.UnaryOp) and isinstance(test.op, ast.Not):
+        yield from compare_atoms(test.operand, None if pol is None else not pol)
+    elif isinstance(test, ast.BoolOp):
+        determined = pol is not None and (isinstance(test.op, ast.And) == pol)
+        for v in test.values:
+            yield from compare_atoms(v, pol if determined else None)
+    elif isinstance(test, ast.Compare):
+        yield test, pol
+
+
+def unordered_safe(ctx, rule, src_tree, cls, func, store_target, what, site_prefix, key=None):
+    """a value that comes straight out of json.loads may be NaN, which fails EVERY order comparison: the store of such a value is reached only through order
+    comparisons on it that are required to HOLD — a refusal written as `if n < 0 or n > MAX: return` lets the unordered value through.  Decided on the tree as
+    written (the canonical terms of the engine identify `a < b` with `not b <= a`, which is the total-order assumption this rule is there to drop)."""
+    fn = None
+    for c in ast.walk(src_tree):
+        if isinstance(c, ast.ClassDef) and c.name == cls:
+            for f in c.body:
+                if isinstance(f, (ast.FunctionDef, ast.AsyncFunctionDef)) and f.name == func:
+                    fn = f
+    if fn is None:
+        return ctx.ob(rule, False, site_prefix, f"{what}: `{cls}.{func}` is present", detail="SHAPE: function not found as written", key=key)
+    params = [a.arg for a in fn.args.args if a.arg not in ("self", "cls")]
+    stores = [s for s in ast.walk(fn) if isinstance(s, ast.Assign) and any(ast.unparse(t) == store_target for t in s.targets)
+              and isinstance(s.value, ast.Name) and s.value.id in params]
+    ctx.floor(rule, f"stores of the announced value into {store_target} (as written)", len(stores), 1, site=f"{site_prefix}:{fn.lineno}")
+    ORDER = (ast.Lt, ast.LtE, ast.Gt, ast.GtE)
+    for s in stores:
+        p = s.value.id
+        req = required_polarities(fn, s)
+        if req is None:
+            ctx.ob(rule, False, f"{site_prefix}:{s.lineno}", what, detail="SHAPE: store not found in the statement tree", key=key)
+            continue
+        pos, bad = 0, []
+        for test, pol in req:
+            for cmp_, cp in compare_atoms(test, pol):
+                names = {n.id for n in ast.walk(cmp_) if isinstance(n, ast.Name)}
+                if p in names and any(isinstance(o, ORDER) for o in cmp_.ops):
+                    if cp is True:
+                        pos += 1
+                    else:
+                        bad.append(f"L{cmp_.lineno} `{ast.unparse(cmp_)}` must be {'false' if cp is False else 'false on some path'}")
+        ok = pos >= 1 and not bad
+        ctx.ob(rule, ok, f"{site_prefix}:{s.lineno}", what, detail="" if ok else ("; ".join(bad) or "no order comparison on the value is required to hold") +
+               " — an unordered value (NaN from json.loads) gets through", key=key)
